@@ -1,6 +1,11 @@
 #!/usr/bin/env python3
 """Translator step of C19: reads primitiv/core/spinlock.h of the working tree
-(env VERIF_REPO, default /repo) and emits lean/PrimitivModel/Gen/SpinlockDecls.lean:
+(env VERIF_REPO, default /repo), mixins/identifiable.h and mixins/default_settable.h and emits
+lean/PrimitivModel/Gen/SpinlockDecls.lean:
+
+  * every data member of Spinlock, RecursiveSpinlock, Identifiable, DefaultSettable with its declared
+    type, storage class (static / thread_local), atomicity and integer width; for Identifiable whether
+    the constructor, the destructor and get_object() take the lock_guard on mutex_ before touching the registry;
 
   * for each of the two classes, which data members are declared with an atomic
     type (std::atomic_flag, std::atomic<...>, std::atomic_xxx) and which are plain;
@@ -111,24 +116,62 @@ def is_atomic_type(ty):
     return bool(re.match(r"^(const)?(volatile)?(std::)?atomic(_\w+|<.*>)$", ty))
 
 
+STORAGE = ("static", "thread_local", "mutable", "constexpr", "inline")
+
+
 def members(body):
-    """{member name: declared type} of the data members."""
+    """{member name: declared type}; the storage-class specifiers of each
+    member are collected in members.storage[name] (see member_table)."""
+    return {n: t for n, (t, _) in member_table(body).items()}
+
+
+def member_table(body):
+    """{member name: (declared type, [storage class specifiers])} of the data members."""
     res = {}
     for c in top_level_chunks(body):
-        if "(" in c.split("=")[0].split("{")[0]:
-            continue  # a function
-        m = re.match(r"^(?:static\s+|mutable\s+)*(?P<ty>[\w:<>,\s\*&]+?)\s+(?P<name>\w+)\s*(=.*|\{.*\})?$", c, flags=re.S)
-        if m:
-            res[m.group("name")] = " ".join(m.group("ty").split())
+        head = c.split("=")[0].split("{")[0]
+        if "(" in head or c.startswith(("using ", "typedef ", "friend ", "template", "class ", "struct ", "enum ")):
+            continue  # a function or a nested type
+        decl = re.split(r"=|\{", c, 1)[0].strip()
+        m = re.match(r"^(?P<pre>.*?)(?P<name>\w+)$", decl, flags=re.S)
+        if not m or not m.group("pre").strip():
+            continue
+        toks = m.group("pre").split()
+        storage = [t for t in toks if t in STORAGE]
+        ty = " ".join(t for t in toks if t not in STORAGE)
+        res[m.group("name")] = (ty, storage)
     return res
 
 
-def method_body(body, name):
-    m = re.search(r"\b%s\s*\(\s*\)\s*(const\s*)?\{" % re.escape(name), body)
+INT_BITS = {"std::uint8_t": 8, "std::uint16_t": 16, "std::uint32_t": 32, "std::uint64_t": 64,
+            "uint8_t": 8, "uint16_t": 16, "uint32_t": 32, "uint64_t": 64,
+            "unsigned char": 8, "unsigned short": 16, "unsigned": 32, "unsigned int": 32,
+            "unsigned long": 64, "unsigned long long": 64, "std::size_t": 64, "size_t": 64}
+
+
+def int_bits(ty):
+    """Width of a fixed-width unsigned integer type (LP64); 0 for anything else
+    (signed types would make the overflow of the counter undefined: 0 too)."""
+    ty = " ".join(t for t in ty.split() if t not in ("const", "volatile"))
+    return INT_BITS.get(ty, 0)
+
+
+def method_body(body, name, params=r"\s*"):
+    m = re.search(r"(?<![\w~])%s\s*\(%s\)\s*(const\s*)?\{" % (name, params), body)
     if not m:
         raise TranslateError("method %s() not found" % name)
     i = m.end() - 1
     return body[i + 1:match_brace(body, i)]
+
+
+def guarded(code, shared):
+    """Does the body take `std::lock_guard<std::mutex> …(mutex_)` (or unique_lock)
+    as a statement of the outermost block before it first mentions one of `shared`?"""
+    g = re.search(r"\bstd::(lock_guard|unique_lock)\s*<\s*std::mutex\s*>\s+\w+\s*[\(\{]\s*mutex_\s*[\)\}]\s*;", code)
+    first = min([m.start() for n in shared for m in re.finditer(r"\b%s\b" % n, code)] or [len(code)])
+    if not g or g.start() > first:
+        return False
+    return code[:g.start()].count("{") == code[:g.start()].count("}")
 
 
 def order_of(args, atomic):
@@ -211,11 +254,50 @@ def parse(path=None):
         if lock != "while(!try_lock());":
             raise TranslateError("%s::lock() is not `while (!try_lock());`: %s" % (cls, lock))
         out[cls] = {
-            "members": mem, "atomic": atomic,
+            "members": mem, "atomic": atomic, "table": member_table(body),
             "try_lock": accesses(method_body(body, "try_lock"), atomic),
             "unlock": accesses(method_body(body, "unlock"), atomic),
         }
+    out["mixins"] = parse_mixins()
     return out
+
+
+MIXIN_MEMBERS = {"Identifiable": {"next_id_": "nextId", "objects_": "objects", "mutex_": "mutex", "id_": "objId"},
+                 "DefaultSettable": {"default_obj_": "defaultObj"}}
+
+
+def parse_mixins():
+    base = os.path.join(repo(), "primitiv", "core", "mixins")
+    res = {}
+    src = strip(open(os.path.join(base, "identifiable.h")).read())
+    body = class_body(src, "Identifiable")
+    tab = member_table(body)
+    for n in tab:
+        if n not in MIXIN_MEMBERS["Identifiable"]:
+            raise TranslateError("Identifiable has a data member the model does not know: %s %s" % (tab[n][0], n))
+    for n in MIXIN_MEMBERS["Identifiable"]:
+        if n not in tab:
+            raise TranslateError("Identifiable has no member " + n)
+    shared = ["next_id_", "objects_"]
+    res["Identifiable"] = {"table": tab, "guarded": [
+        ("ctor", guarded(method_body(body, "Identifiable"), shared)),
+        ("dtor", guarded(method_body(body, "~Identifiable"), shared)),
+        ("getObject", guarded(method_body(body, "get_object", r"[^)]*"), shared))]}
+    # nothing else in the class may touch the registry
+    rest = body
+    for nm, pr in (("Identifiable", r"\s*"), ("~Identifiable", r"\s*"), ("get_object", r"[^)]*")):
+        rest = rest.replace(method_body(body, nm, pr), "")
+    for n in shared:
+        # the member declarations themselves are the only other mentions
+        if len(re.findall(r"\b%s\b" % n, rest)) != 1:
+            raise TranslateError("Identifiable: %s is used outside the constructor, the destructor and get_object()" % n)
+    src = strip(open(os.path.join(base, "default_settable.h")).read())
+    body = class_body(src, "DefaultSettable")
+    tab = member_table(body)
+    if set(tab) != {"default_obj_"}:
+        raise TranslateError("DefaultSettable: data members are %s, the model knows default_obj_ only" % sorted(tab))
+    res["DefaultSettable"] = {"table": tab}
+    return res
 
 
 def lean_text(d):
@@ -232,11 +314,30 @@ def lean_text(d):
                 "    | .ready => %s\n    | .owner => %s\n    | .count => %s\n"
                 "  tryLock := %s\n"
                 "  unlock := %s\n" % (types, name, b("ready"), b("owner"), b("count"), acc(c["try_lock"]), acc(c["unlock"])))
-    return ("-- GENERATED by /verif/translate/spinlock_decls.py from primitiv/core/spinlock.h — do not edit.\n"
+    def q(x):
+        return '"' + x.replace("\\", "\\\\").replace('"', '\\"') + '"'
+    rows = []
+    def row(cls, member, ty, storage, atomic):
+        rows.append("  ⟨.%s, .%s, %s, %s, %s, %s, %d⟩" % (cls, member, q(ty), "true" if "static" in storage else "false",
+                    "true" if "thread_local" in storage else "false", "true" if atomic else "false", int_bits(ty)))
+    for cls, lc in (("Spinlock", "spinlock"), ("RecursiveSpinlock", "recursiveSpinlock")):
+        for n, (ty, st) in sorted(d[cls]["table"].items()):
+            row(lc, FIELDS[n], ty, st, is_atomic_type(ty))
+    for cls, lc in (("Identifiable", "identifiable"), ("DefaultSettable", "defaultSettable")):
+        for n, (ty, st) in sorted(d["mixins"][cls]["table"].items()):
+            row(lc, MIXIN_MEMBERS[cls][n], ty, st, is_atomic_type(ty))
+    table = ("/-- every data member of the four classes: class, member, declared type, static?, thread_local?, atomic type?,\n"
+             "width in bits when the type is a fixed-width unsigned integer (else 0) -/\n"
+             "def members : List MemberDecl := [\n" + ",\n".join(rows) + "]\n\n"
+             "/-- Identifiable: does the body take std::lock_guard<std::mutex>(mutex_) before it first touches next_id_ / objects_?\n"
+             "(no other code of the class mentions them) -/\n"
+             "def identGuarded : List (IdentMethod × Bool) := [" +
+             ", ".join("(.%s, %s)" % (m, "true" if g else "false") for m, g in d["mixins"]["Identifiable"]["guarded"]) + "]\n")
+    return ("-- GENERATED by /verif/translate/spinlock_decls.py from primitiv/core/spinlock.h, mixins/identifiable.h, mixins/default_settable.h — do not edit.\n"
             "import PrimitivModel.Model.Spinlock\n"
             "namespace Primitiv.Gen.SpinlockDecls\n"
             "open Primitiv.Lock\n\n"
-            + decls("spin", d["Spinlock"]) + "\n" + decls("rspin", d["RecursiveSpinlock"]) +
+            + decls("spin", d["Spinlock"]) + "\n" + decls("rspin", d["RecursiveSpinlock"]) + "\n" + table +
             "\nend Primitiv.Gen.SpinlockDecls\n")
 
 
